@@ -497,7 +497,7 @@ class PipeWorld:
                 self._conn_of(h).lose()
         return released, before
 
-    def ev_reply(self, index, outcome, new=None, poll=True):
+    def ev_reply(self, index, outcome, new=None, poll=True, raw_vals=None):
         '''the worker that holds in-flight unit #index answers.
         outcome: 'success' | 'failure' | 'invalid';  new: set of value names
         (sv.val) reported new, None = all'''
@@ -518,6 +518,8 @@ class PipeWorld:
                     nm = f"{s['n']}.{v['n']}"
                     vals.append((f'{runid}.{tgt}.{jobid}.{nm}',
                                  True if new is None else nm in new))
+        if raw_vals is not None and outcome == 'success':
+            vals = list(raw_vals)     # the worker's own report, verbatim
         suc = {'success': True, 'failure': False, 'invalid': None}[outcome]
         c = Conn(self)
         c.rev = dawgie.context.git_rev
